@@ -28,6 +28,20 @@ def tree_equal(a, b):
     return probs
 
 
+def dirs_equal(scen):
+    """Directories (outside TMPDIR) and their modification times, on the sandbox as the run left it."""
+    probs = []
+    now = proc.dir_mtimes(scen.root)
+    for d in sorted(set(now) | set(scen.initial_dirs)):
+        if d not in now:
+            probs.append('directory %s disappeared' % d)
+        elif d not in scen.initial_dirs:
+            probs.append('directory %s appeared' % d)
+        elif now[d] != scen.initial_dirs[d]:
+            probs.append('directory %s: modification time changed (an entry was created, removed or renamed in it)' % d)
+    return probs
+
+
 def one(tools, W, spec, conformable=True):
     out = []
     scen = spec.build(tools)
@@ -36,7 +50,7 @@ def one(tools, W, spec, conformable=True):
             scen.reset()
             scen.args = [flag] + list(spec.args)
             r = scen.run()
-            probs = tree_equal(scen.initial, r.final)
+            probs = tree_equal(scen.initial, r.final) + dirs_equal(scen)
             left = ws.tmp_entries(r.final)
             if left:
                 probs.append('left behind in TMPDIR: %s' % left)
@@ -308,7 +322,12 @@ def run(rep):
     t['src/new/9.host'] = ws.MIME
     specs.append((ws.Spec('attachment-last-nomatch', 'maildir "%s/src" {\n\tmatch all attachment { match header "Content-Type" /plain/ exec stdin "@HELPER@" }\n}\n' % R,
                           [('plain', '')], tree=t), True))
-    specs += random_specs(rng, 25 if rep.tier == 'quick' else 600)
+    nrandom = 25 if rep.tier == 'quick' else 600
+    specs += random_specs(rng, nrandom)
+    # the same configurations over maildirs IN USE: remains of deliveries of several ages in tmp/, dot files and empty files in new/ and
+    # cur/, other files and directories in the maildir (worldscen.clutter), every directory with a modification time in the past
+    cluttered = [(ws.with_clutter(s), c) for s, c in specs]
+    specs += cluttered
     cspecs = content_specs(rng, rep.tier)
     what = {s.name: s.what for s in cspecs}
     stdin_msg = {s.name: s.stdin for s in cspecs if s.kind == 'stdin'}
@@ -339,7 +358,10 @@ def run(rep):
             rep.finding('unlisted', dict({'scenario': r['scenario'], 'option': r['flag'], 'exit_status': r['status'], 'what': r['problems'][:6],
                                           'config': r['config']},
                                          **({'content_case': what[r['scenario']], 'stdin_message': repr(stdin_msg.get(r['scenario'], b''))[:1500]}
-                                            if r['scenario'] in what else {})))
+                                            if r['scenario'] in what else {}),
+                                         **({'every_maildir_also_holds': {rel[2:]: 'mtime = pinned clock %+d s' % (t // 10**9 - ws.NOW)
+                                                                          for rel, t in sorted(ws.clutter('M')[1].items())}}
+                                            if r['scenario'].endswith('+clutter') else {})))
         elif r['conform'] not in ('ok', 'skipped'):
             corr_bad.append(r)
     for r in fres + lres:
@@ -358,9 +380,14 @@ def run(rep):
                 'real binary: tree snapshot (names, contents, '
                 'mtimes) unchanged, TMPDIR empty, no command executed, no mutating libc call inside a maildir (-d) / no call beyond the '
                 'configuration file (-n); where the configuration is within the world model, call-by-call conformance with Model.mainP; '
-                'non-trivial = dry runs that actually walked messages' % (len(specs), len(specs) - len(ws.corpus()) - 4 - len(cspecs)),
+                'every one of these also over maildirs in use (worldscen.clutter: files of several ages, a dot file, a directory and a dangling '
+                'link in tmp/, dot files and empty files in new/ and cur/, files, a Maildir++ sub-folder and another directory in the maildir '
+                'itself, every directory backdated) - the snapshot includes the modification times of all directories outside TMPDIR; '
+                'non-trivial = dry runs that actually walked messages' % (len(specs), nrandom),
         'samples': results[:2],
         'correspondence_mismatches': len(corr_bad),
+        'maildirs_in_use': {'configurations': len(cluttered),
+                            'conform_ok': len([r for r in results if r['scenario'].endswith('+clutter') and r['conform'] == 'ok'])},
         'explanation_content': {
             'configurations': len(cspecs), 'stdin_mode': len([s for s in cspecs if s.kind == 'stdin']),
             'dry_runs_that_printed_an_explanation': len([r for r in results if r['scenario'] in what and r['flag'] == '-d' and r.get('explained')]),
